@@ -16,7 +16,7 @@ type sharedMonitor struct {
 	i     *interpreter
 }
 
-func newSharedMonitor(i *interpreter) *sharedMonitor {
+func newSharedMonitor(i *interpreter, roots []value) *sharedMonitor {
 	m := &sharedMonitor{cells: map[*value]bool{}, maps: map[*omap]bool{}, i: i}
 	seen := map[interface{}]bool{}
 	var walk func(v value)
@@ -81,7 +81,10 @@ func newSharedMonitor(i *interpreter) *sharedMonitor {
 	for _, cell := range i.globals {
 		walkCell(cell)
 	}
-	// the harness's own live values: reachable from its frame are walked by the caller via verifShare
+	// the objects the harness declares shared (document, router, options ...)
+	for _, r := range roots {
+		walk(r)
+	}
 	return m
 }
 
